@@ -10,7 +10,7 @@ YEARS = ['2019', '2001-2019', '1999,2001', '2001-2005,', '(2010)', '2010-', '199
          # year lists of any length are one word as long as they hold no blank
          ','.join(str(y) for y in range(1980, 1987)), ','.join(str(y) for y in range(1970, 2024)), '1990-1995,1997-2001,2003,2005-2011,2013,2015-2022',
          '1' * 31, '1' * 32, '1' * 33, '2' * 64, '1999' + ',2000' * 60]
-NONYEARS = ['Copyright', '(c)', 'c2019', '2019a', 'by']
+NONYEARS = ['Copyright', '(c)', 'c2019', '2019a', 'by', '1999\u20132001', '\u00a92015', '\u00ab2007\u00bb', '2008\u2026']
 SHORT = ['GPL-2+', 'MIT', 'Apache-2.0', 'GPL-2+ or MIT', 'BSD-3-clause', 'public-domain', 'LGPL-2.1+ with exception']
 TOKENS = ['*', 'src/*', 'debian/*', 'foo.c', 'a/b/c.h', '*.txt', 'doc/?.md', 'attic/main.c,', 'a,b', ',', 'x;', '[ab].c', 'dir\\*', '"q"']
 EXTRA_NAMES = ['X-Foo', 'Origin', 'Bar', 'X-Comment-2', 'Notes', 'Extra-Data', 'Line-Numbers-By-Field', 'X-Licence', 'Sublicence']
